@@ -32,6 +32,7 @@ enum Task {
     AbortT(usize, Box<Task>),
     Yield(u64, Box<Task>),
     AbortC(u64, Box<Task>),
+    LegReq(u64, Expr, usize, Box<Task>),
     Both(u64, Expr, usize, u64, Expr, usize, Box<Task>),
     Race(u64, Expr, u64, Expr, usize, Box<Task>),
 }
@@ -82,6 +83,7 @@ impl Task {
             Task::AbortT(h, k) => format!("(TAbortT {} {})", h, k.coq()),
             Task::Yield(n, k) => format!("(TYield {} {})", n, k.coq()),
             Task::AbortC(n, k) => format!("(TAbortC {} {})", n, k.coq()),
+            Task::LegReq(t, e, x, k) => format!("(TLegReq {} {} {} {})", t, e.coq(), x, k.coq()),
             Task::Both(t1, e1, x1, t2, e2, x2, k) => format!("(TBoth {} {} {} {} {} {} {})", t1, e1.coq(), x1, t2, e2.coq(), x2, k.coq()),
             Task::Race(t1, e1, t2, e2, x, k) => format!("(TRace {} {} {} {} {} {})", t1, e1.coq(), t2, e2.coq(), x, k.coq()),
         }
@@ -89,7 +91,7 @@ impl Task {
     fn size(&self) -> usize {
         match self {
             Task::Ret => 1,
-            Task::Emit(_, _, k) | Task::Notify(_, _, k) | Task::Req(_, _, _, k) | Task::Join(_, k) | Task::AbortT(_, k) | Task::Yield(_, k) | Task::AbortC(_, k) => 1 + k.size(),
+            Task::Emit(_, _, k) | Task::Notify(_, _, k) | Task::Req(_, _, _, k) | Task::LegReq(_, _, _, k) | Task::Join(_, k) | Task::AbortT(_, k) | Task::Yield(_, k) | Task::AbortC(_, k) => 1 + k.size(),
             Task::Both(_, _, _, _, _, _, k) | Task::Race(_, _, _, _, _, k) => 2 + k.size(),
             Task::ForEach(_, _, _, b, k) | Task::Spawn(b, _, k) => 1 + b.size() + k.size(),
         }
@@ -97,7 +99,7 @@ impl Task {
     fn hist(&self, h: &mut HashMap<&'static str, u64>) {
         let (name, subs): (&'static str, Vec<&Task>) = match self {
             Task::Ret => ("TRet", vec![]), Task::Emit(_, _, k) => ("TEmit", vec![k]), Task::Notify(_, _, k) => ("TNotify", vec![k]),
-            Task::Req(_, _, _, k) => ("TReq", vec![k]), Task::ForEach(_, _, _, b, k) => ("TForEach", vec![b, k]),
+            Task::Req(_, _, _, k) => ("TReq", vec![k]), Task::LegReq(_, _, _, k) => ("TLegReq", vec![k]), Task::ForEach(_, _, _, b, k) => ("TForEach", vec![b, k]),
             Task::Spawn(b, _, k) => ("TSpawn", vec![b, k]), Task::Join(_, k) => ("TJoin", vec![k]), Task::AbortT(_, k) => ("TAbortT", vec![k]), Task::Yield(_, k) => ("TYield", vec![k]), Task::AbortC(_, k) => ("TAbortC", vec![k]),
             Task::Both(_, _, _, _, _, _, k) => ("TBoth", vec![k]), Task::Race(_, _, _, _, _, k) => ("TRace", vec![k]),
         };
@@ -229,6 +231,12 @@ fn exec<'a>(t: &'a Task, env: &'a mut Env, ctx: &'a Ctx, aborts: &'a Aborts) -> 
                 Task::AbortT(h, k) => { if let Some(jh) = env.handles.get(h) { (jh.abort)(); } cur = k; }
                 Task::Yield(n, k) => { YieldN(*n).await; cur = k; }
                 Task::AbortC(n, k) => { for (m, h) in aborts.lock().unwrap().iter() { if m == n { h(); } } cur = k; }
+                Task::LegReq(tg, e, x, k) => {
+                    // a legacy capability's async request awaited inside a Command task (only under the Core host)
+                    let lctx = LEGCTX.lock().unwrap().clone();
+                    if let Some(lctx) = lctx { let out = lctx.request_from_shell(Op { tag: *tg, val: e.eval(&env.vars) }).await; env.set(*x, out); }
+                    cur = k;
+                }
                 Task::Both(t1, e1, x1, t2, e2, x2, k) => {
                     let f1 = ctx.request_from_shell(Op { tag: *t1, val: e1.eval(&env.vars) });
                     let f2 = ctx.request_from_shell(Op { tag: *t2, val: e2.eval(&env.vars) });
@@ -299,7 +307,7 @@ fn build(c: &Cmd, env0: &Env, aborts: &Aborts) -> C {
 }
 
 // ---------------------------------------------------------------- generator
-struct Gen { rng: Rng, next_tag: u64, next_name: u64, names: Vec<u64>, ev_tags: Vec<u64>, legacy: bool, scope: Vec<u64> }
+struct Gen { rng: Rng, next_tag: u64, next_name: u64, names: Vec<u64>, ev_tags: Vec<u64>, legacy: bool, scope: Vec<u64>, mix: bool }
 impl Gen {
     fn expr(&mut self, nvars: usize) -> Expr {
         match self.rng.below(6) {
@@ -330,6 +338,7 @@ impl Gen {
             18..=37 => { let t = self.evtag(); let e = self.expr(nvars); Task::Emit(t, e, Box::new(self.task(budget, nvars, handles, depth))) }
             38..=45 => { let t = self.tag(); let e = self.expr(nvars); Task::Notify(t, e, Box::new(self.task(budget, nvars, handles, depth))) }
             46..=63 => { let t = self.tag(); let e = self.expr(nvars); let x = (self.rng.below((nvars as u64 + 1).min(8))) as usize;
+                         if self.mix && self.rng.coin(2, 5) { return Task::LegReq(t, e, x, Box::new(self.task(budget, nvars.max(x + 1), handles, depth))); }
                          Task::Req(t, e, x, Box::new(self.task(budget, nvars.max(x + 1), handles, depth))) }
             64..=73 if depth < 2 => { let t = self.tag(); let e = self.expr(nvars); let x = (self.rng.below((nvars as u64 + 1).min(8))) as usize;
                          let mut bb = (*budget).min(4); let body = self.task(&mut bb, nvars.max(x + 1), &mut handles.clone(), depth + 1);
@@ -526,12 +535,19 @@ fn run_direct(c: &Cmd, rng: &mut Rng, names: &[u64], nsteps: usize, fixed: Optio
 
 // ----- Core host: the app reads its handler table from a process-wide slot (App: Default has no state)
 static HANDLERS: Mutex<Vec<(u64, Cmd)>> = Mutex::new(Vec::new());
+// the command-API app also owns one legacy capability, so that Command tasks can await its futures
+static LEGCTX: Mutex<Option<crux_core::capability::CapabilityContext<Op, Ev>>> = Mutex::new(None);
+pub struct MixCaps { leg: crux_core::capability::CapabilityContext<Op, Ev> }
+impl crux_core::capability::WithContext<Ev, Eff> for MixCaps {
+    fn new_with_context(context: crux_core::capability::ProtoContext<Eff, Ev>) -> Self { MixCaps { leg: context.specialize(Eff::Op) } }
+}
 static ABORTS: Mutex<Option<Aborts>> = Mutex::new(None);
 #[derive(Default)]
 struct TheApp;
 impl crux_core::App for TheApp {
-    type Event = Ev; type Model = Vec<Ev>; type ViewModel = Vec<Ev>; type Capabilities = (); type Effect = Eff;
-    fn update(&self, event: Ev, model: &mut Vec<Ev>, _caps: &()) -> C {
+    type Event = Ev; type Model = Vec<Ev>; type ViewModel = Vec<Ev>; type Capabilities = MixCaps; type Effect = Eff;
+    fn update(&self, event: Ev, model: &mut Vec<Ev>, caps: &MixCaps) -> C {
+        *LEGCTX.lock().unwrap() = Some(caps.leg.clone());
         model.push(event.clone());
         if !event.maps.is_empty() { return C::done(); }
         let hs = HANDLERS.lock().unwrap();
@@ -774,7 +790,7 @@ mod legacy {
                     Task::Ret => return,
                     Task::Emit(tg, e, k) => { ctx.update_app(Ev { tag: *tg, val: e.eval(&env.vars), maps: vec![] }); cur = k; }
                     Task::Notify(tg, e, k) => { ctx.notify_shell(Op { tag: *tg, val: e.eval(&env.vars) }).await; cur = k; }
-                    Task::Req(tg, e, x, k) => { let out = ctx.request_from_shell(Op { tag: *tg, val: e.eval(&env.vars) }).await; env.set(*x, out); cur = k; }
+                    Task::Req(tg, e, x, k) | Task::LegReq(tg, e, x, k) => { let out = ctx.request_from_shell(Op { tag: *tg, val: e.eval(&env.vars) }).await; env.set(*x, out); cur = k; }
                     Task::ForEach(tg, e, x, body, k) => {
                         let mut stream = ctx.stream_from_shell(Op { tag: *tg, val: e.eval(&env.vars) });
                         while let Some(out) = stream.next().await { env.set(*x, out); lexec(body, env, ctx).await; }
@@ -904,7 +920,7 @@ fn retag_task(t: &mut Task, n: &mut u64) {
     match t {
         Task::Ret => {}
         Task::Emit(_, _, k) | Task::Join(_, k) | Task::AbortT(_, k) | Task::Yield(_, k) | Task::AbortC(_, k) => retag_task(k, n),
-        Task::Notify(tg, _, k) | Task::Req(tg, _, _, k) => { *tg = fresh(n); retag_task(k, n) }
+        Task::Notify(tg, _, k) | Task::Req(tg, _, _, k) | Task::LegReq(tg, _, _, k) => { *tg = fresh(n); retag_task(k, n) }
         Task::ForEach(tg, _, _, b, k) => { *tg = fresh(n); retag_task(b, n); retag_task(k, n) }
         Task::Spawn(c, _, k) => { retag_task(c, n); retag_task(k, n) }
         Task::Both(t1, _, _, t2, _, _, k) => { *t1 = fresh(n); *t2 = fresh(n); retag_task(k, n) }
@@ -1012,7 +1028,7 @@ fn main() {
     if mode == "enum" { run_enum(count.max(1), seed as usize); return; }
     for idx in 0..count {
         // one independent generator state per case so that a single case can be regenerated
-        let mut g = Gen { rng: Rng::new(seed.wrapping_mul(1_000_003).wrapping_add(idx as u64)), next_tag: 0, next_name: 0, names: vec![], ev_tags: vec![], legacy: false, scope: vec![] };
+        let mut g = Gen { rng: Rng::new(seed.wrapping_mul(1_000_003).wrapping_add(idx as u64)), next_tag: 0, next_name: 0, names: vec![], ev_tags: vec![], legacy: false, scope: vec![], mix: false };
         let core_host = idx % 3 == 2;
         let legacy_host = idx % 6 == 5;
         let depth = match g.rng.below(10) { 0..=2 => 0, 3..=5 => 1, 6..=7 => 2, 8 => 3, _ => 4 };
@@ -1058,6 +1074,7 @@ fn main() {
         } else {
             // handlers: event tags 1..=n each mapped to a command; emitted events may hit them
             let n = 1 + g.rng.below(3);
+            g.mix = true;
             // handler t may only emit handler events > t: the app terminates (a cyclic app makes the real
             // call loop forever; the model says OutOfFuel; the theorems are silent there)
             let hs: Vec<(u64, Cmd)> = (1..=n).map(|t| { g.ev_tags = (t + 1..=n).collect(); (t, g.cmd(depth.min(2), 1)) }).collect();
